@@ -111,6 +111,17 @@ class _Canon(ast.NodeTransformer):
                     fs.append(e.args[0])
                     e = e.args[1]
                     continue
+            # (f(x) for x in X) / [f(x) for x in X] / (x for x in X): what map(f, X) has been rewritten to by visit_Call below
+            if isinstance(e, (ast.GeneratorExp, ast.ListComp)) and len(e.generators) == 1 and not e.generators[0].ifs and isinstance(e.generators[0].target, ast.Name):
+                t = e.generators[0].target.id
+                if isinstance(e.elt, ast.Name) and e.elt.id == t:
+                    e = e.generators[0].iter
+                    continue
+                if isinstance(e.elt, ast.Call) and not e.elt.keywords and len(e.elt.args) == 1 and isinstance(e.elt.args[0], ast.Name) and e.elt.args[0].id == t \
+                        and isinstance(e.elt.func, (ast.Name, ast.Attribute)) and t not in {x.id for x in ast.walk(e.elt.func) if isinstance(x, ast.Name)}:
+                    fs.append(e.elt.func)
+                    e = e.generators[0].iter
+                    continue
             break
         if isinstance(e, ast.Call) and isinstance(e.func, ast.Attribute) and e.func.attr in ("keys", "values") and not e.args and not e.keywords:
             return e.func.value, e.func.attr, fs
